@@ -894,6 +894,24 @@ func (x *Exec) applyContractSig(st *State, call *ast.CallExpr, sig *types.Signat
 		}
 	}
 	pre := st.clone()
+	// call-site assertions of the function under verification (its own locals are visible)
+	if x.contract != nil && len(x.inRes) == 0 {
+		for i, ca := range x.contract.CallAsserts[c.Local] {
+			cenv := x.specEnvAt(st, call.Pos())
+			for k, v := range names {
+				if _, isLocal := cenv.lookup(k); !isLocal {
+					cenv.names[k] = v // the callee's parameter names denote the actual arguments
+				}
+			}
+			for j, cj := range splitConj(ca.Expr) {
+				cls := fmt.Sprintf("callsite@%s.%d", c.Local, i+1)
+				if j > 0 {
+					cls += fmt.Sprintf(".%d", j+1)
+				}
+				x.assert(st, cls, cenv.boolean(cj), "at every call of "+c.Local+": "+exprText(cj), call.Pos())
+			}
+		}
+	}
 	// preconditions
 	env := x.specEnv(st, pre, names, c.PkgPath)
 	x.evalLets(env, c)
